@@ -6,9 +6,9 @@
 From Coq Require Import Floats.SpecFloat.
 From SJ Require Import lib.Base lib.Utf8 lib.GoLib model.Json model.Ast model.Lexer model.Parser
   model.Printer.
-Local Open Scope list_scope.
 Local Open Scope string_scope.
 Local Open Scope Z_scope.
+Local Open Scope list_scope.
 
 (* a single-rune token, with the text scanOperator / Lex give it *)
 Definition ctok (c : Z) : token := mktok (TChar c) (string_of_runes [c]).
@@ -57,11 +57,11 @@ Definition tparen (b : bool) (l : list token) : list token :=
   if b then ctok 40 :: l ++ [ctok 41] else l.
 
 Definition regex_flag_text (f : Z) : string :=
-  (if 0 <? Z.land f reICase then "i" else "") ++
-  (if 0 <? Z.land f reDotAll then "s" else "") ++
-  (if 0 <? Z.land f reMLine then "m" else "") ++
-  (if 0 <? Z.land f reWSpace then "x" else "") ++
-  (if 0 <? Z.land f reQuote then "q" else "").
+  ((if (0 <? Z.land f reICase)%Z then "i" else "") ++
+   (if (0 <? Z.land f reDotAll)%Z then "s" else "") ++
+   (if (0 <? Z.land f reMLine)%Z then "m" else "") ++
+   (if (0 <? Z.land f reWSpace)%Z then "x" else "") ++
+   (if (0 <? Z.land f reQuote)%Z then "q" else ""))%string.
 
 Section WithLib.
 Variable L : GoLib.
